@@ -41,6 +41,7 @@ type caseDesc struct {
 	G         *graph    `json:"graph,omitempty"`
 	Cell      *cellSpec `json:"cell,omitempty"`
 	Throwable bool      `json:"throwable,omitempty"`
+	Full      bool      `json:"whole_program,omitempty"` // the cell fails only after the other cells of the program ran
 	Like      *likeCase `json:"like,omitempty"`
 	Script    string    `json:"script,omitempty"`
 	Want      string    `json:"want,omitempty"`
@@ -98,7 +99,7 @@ func norm(v string, present bool) string {
 
 // verdict: "" when got satisfies want.
 func verdict(want, got string) string {
-	if got == "crash" || got == "missing" {
+	if got == "crash" || got == "missing" || got == "hang" {
 		return got
 	}
 	if want == "none" {
@@ -117,13 +118,27 @@ func verdict(want, got string) string {
 
 // evalCell runs one cell alone on graph g.
 func evalCell(st *stats, g *graph, c cellSpec, throwable bool, n names) (want, got string, script string, res runner.Result) {
-	script = g.source(n, throwable, []cellSpec{c})
+	return evalCellMode(st, g, c, throwable, n, false)
+}
+
+// evalCellMode: full=false runs the cell alone; full=true runs the whole program of the graph
+// (every cell, in the batch order) and reads the one cell - for failures that depend on what
+// ran earlier in the same script.
+func evalCellMode(st *stats, g *graph, c cellSpec, throwable bool, n names, full bool) (want, got string, script string, res runner.Result) {
+	cells := []cellSpec{c}
+	if full {
+		cells = g.cells(throwable)
+	}
+	script = g.source(n, throwable, cells)
 	res = st.run(script)
 	out, _ := parseOut(res.Out)
 	v, ok := out[c.id(g)]
 	got = norm(v, ok)
 	if res.Kind == "panic" {
 		got = "crash"
+	}
+	if res.Kind == "fuel" && !ok {
+		got = "hang"
 	}
 	return g.expect(c, n), got, script, res
 }
@@ -214,7 +229,7 @@ func removeIface(g *graph, x int, c cellSpec) (*graph, cellSpec, bool) {
 
 // minimise deletes classes, interfaces, edges and definitions while the cell keeps failing the
 // same way (same verdict, same normalised got-kind).
-func minimise(st *stats, g *graph, c cellSpec, throwable bool, n names) (*graph, cellSpec) {
+func minimise(st *stats, g *graph, c cellSpec, throwable bool, n names, full bool) (*graph, cellSpec) {
 	kind := func(want, got string) string {
 		v := verdict(want, got)
 		if v == "" {
@@ -230,13 +245,13 @@ func minimise(st *stats, g *graph, c cellSpec, throwable bool, n names) (*graph,
 		}
 		return v + ":" + wk + ":" + gk
 	}
-	w0, g0, _, _ := evalCell(st, g, c, throwable, n)
+	w0, g0, _, _ := evalCellMode(st, g, c, throwable, n, full)
 	target := kind(w0, g0)
 	if target == "" {
 		return g, c
 	}
 	try := func(h *graph, cc cellSpec) bool {
-		w, gt, _, _ := evalCell(st, h, cc, throwable, n)
+		w, gt, _, _ := evalCellMode(st, h, cc, throwable, n, full)
 		return kind(w, gt) == target
 	}
 	for changed := true; changed; {
@@ -338,20 +353,48 @@ func canonical(g *graph, c cellSpec) (*graph, cellSpec) {
 var generic = names{"C", "I"}
 
 // report reduces a failing cell to its finding key and emits it.
-func report(w *pool.W, st *stats, seen map[string]bool, g *graph, c cellSpec, throwable bool, n names) {
-	mg, mc := minimise(st, g, c, throwable, n)
+func report(w *pool.W, st *stats, seen map[string]bool, g *graph, c cellSpec, throwable bool, n names, bwant, bgot string) {
+	// does the failure show when the cell runs alone? if not it depends on what ran before it in
+	// the same script: reduce and report it in whole-program mode
+	full := false
+	if w0, g0, _, _ := evalCellMode(st, g, c, throwable, n, false); verdict(w0, g0) == "" {
+		full = true
+	}
+	remark := ""
+	if full {
+		remark = "\nNOT STABLE ACROSS RE-RUNS: the cell conforms when it runs alone and fails after the earlier checks of the same script (history-dependent answer)"
+	}
+	mg, mc := minimise(st, g, c, throwable, n, full)
 	cg, cc := canonical(mg, mc)
-	want, got, script, res := evalCell(st, cg, cc, throwable, generic)
+	want, got, script, res := evalCellMode(st, cg, cc, throwable, generic, full)
 	v := verdict(want, got)
 	if v == "" {
 		// does not reproduce under generic names: keep the seed names
 		cg, cc = mg, mc
-		want, got, script, res = evalCell(st, cg, cc, throwable, n)
+		want, got, script, res = evalCellMode(st, cg, cc, throwable, n, full)
 		v = verdict(want, got)
-		if v == "" {
-			w.Emit(rec{Kind: "harness", Err: "failing cell did not reproduce alone: " + g.describe(c) + " " + c.Cons})
+	}
+	if v == "" {
+		// not reproducible at all: still a violation, under the key of the first observation
+		want, got, v = bwant, bgot, verdict(bwant, bgot)
+		wk, gk := want, got
+		if strings.Contains(wk, "::") {
+			wk = "def"
+		}
+		if strings.Contains(gk, "::") {
+			gk = "def"
+		}
+		key := fmt.Sprintf("%s: unstable answer (%s) want=%s got=%s", c.Cons, localShape(g, c), wk, gk)
+		if seen[key] {
 			return
 		}
+		seen[key] = true
+		script = g.source(n, throwable, g.cells(throwable))
+		cc0 := c
+		w.Emit(rec{Kind: "fail", Key: key, Clause: c.Cons + ":" + v, Size: len(script),
+			Case:   caseDesc{Family: "graph", G: g, Cell: &cc0, Throwable: throwable, Full: true, Script: script, Want: want, Got: got},
+			Detail: fmt.Sprintf("construct %s on %s\nreference: %s; origami in the batch run: %s\nNOT STABLE ACROSS RE-RUNS: neither the cell alone nor a second whole-program run reproduced the answer", c.Cons, g.describe(c), want, got)})
+		return
 	}
 	var key string
 	if got == "crash" {
@@ -363,14 +406,17 @@ func report(w *pool.W, st *stats, seen map[string]bool, g *graph, c cellSpec, th
 		key = "crash:" + c.Cons + ":" + k
 	} else {
 		key = fmt.Sprintf("%s: %s want=%s got=%s", cc.Cons, cg.describe(cc), want, got)
+		if full {
+			key += " [after earlier checks in the same script]"
+		}
 	}
 	if seen[key] {
 		return
 	}
 	seen[key] = true
 	w.Emit(rec{Kind: "fail", Key: key, Clause: cc.Cons + ":" + v, Size: len(script),
-		Case:   caseDesc{Family: "graph", G: cg, Cell: &cc, Throwable: throwable, Script: script, Want: want, Got: got},
-		Detail: fmt.Sprintf("construct %s on %s\nreference (reachability / most-derived definer): %s; origami: %s\n%s", cc.Cons, cg.describe(cc), want, got, trunc(res.Out, 300))})
+		Case:   caseDesc{Family: "graph", G: cg, Cell: &cc, Throwable: throwable, Full: full, Script: script, Want: want, Got: got},
+		Detail: fmt.Sprintf("construct %s on %s\nreference (reachability / most-derived definer): %s; origami: %s%s\n%s", cc.Cons, cg.describe(cc), want, got, remark, trunc(res.Out, 300))})
 }
 
 func trunc(s string, n int) string {
@@ -386,11 +432,17 @@ func checkGraph(w *pool.W, st *stats, seen map[string]bool, g *graph, n names, v
 	for _, throwable := range variants {
 		cells := g.cells(throwable)
 		res := st.run(g.source(n, throwable, cells))
-		out, _ := parseOut(res.Out)
+		out, ended := parseOut(res.Out)
 		for _, c := range cells {
 			st.cells++
 			v, ok := out[c.id(g)]
 			got := norm(v, ok)
+			if !ok && !ended {
+				// the batch stopped early (a cell ran out of fuel or crashed the run): judge the
+				// cells it did not reach one by one
+				st.outcomes["~cells-run-alone-after-aborted-batch"]++
+				_, got, _, _ = evalCellMode(st, g, c, throwable, n, false)
+			}
 			want := g.expect(c, n)
 			vd := verdict(want, got)
 			wk := want
@@ -412,7 +464,7 @@ func checkGraph(w *pool.W, st *stats, seen map[string]bool, g *graph, n names, v
 				continue
 			}
 			seen[sig] = true
-			report(w, st, seen, g, c, throwable, n)
+			report(w, st, seen, g, c, throwable, n, want, got)
 		}
 	}
 }
@@ -721,7 +773,7 @@ func replay(c *ev.Check) {
 		return
 	}
 	n := generic
-	want, got, script, _ := evalCell(st, cs.G, *cs.Cell, cs.Throwable, n)
+	want, got, script, _ := evalCellMode(st, cs.G, *cs.Cell, cs.Throwable, n, cs.Full)
 	fmt.Println(script)
 	fmt.Printf("want=%s got=%s\n", want, got)
 	if v := verdict(want, got); v != "" {
